@@ -285,7 +285,9 @@ def run(ctx: Ctx) -> None:
         "l_verbatim: quotes and lists nested to any depth) every code_block / fence content line is, after at most pad spaces, "
         "a suffix of the source line its map points to — the nested runs see line entries whose text is the source line minus a "
         "prefix (SufLines through quoteScan and listEnter) — fence markup+info is the tail of its opening line, hr markup is read off "
-        "the tail of its line. For html_block, heading/list/quote markup and ordered-list start/info it is decided by the oracle; "
+        "the tail of its line; code spans end to end for the inline sub-parser text/newline/escape/backticks (Props/C08d.lean "
+        "imini_codespans: every code_inline token holds codeSpanContent of exactly the text between two backtick runs of the source "
+        "whose common length is its markup). For html_block, heading/list/quote markup and ordered-list start/info it is decided by the oracle; "
         "the getLines, code-span and hr statements are theorems",
     ]
 
